@@ -1,13 +1,40 @@
 (* C01: resumed whole-message parsing equals parsing the same bytes from scratch.
-   PARTIAL.  Full statement: for every flags, capacities, buffer b, start k and schedule cuts,
-   every call of the chunked run of parse_sipmsg agrees (verdict, offset, and obs_msg once
-   definitive) with a fresh one-shot call on the same prefix.  Proved here: that statement
-   follows, for every schedule, from the one-step extension property ExtOK of the message
-   parser (induction over the schedule); ExtOK itself is proved only for the leaf parsers
-   listed in C02, not yet for the composed message parser. *)
-From Sipsp Require Import Harness Resume.
-Theorem C01_every_schedule_from_one_step_partial :
-  forall flags (Inv : N -> pmsg -> Prop), ExtOK (parse_sipmsg flags) obs_msg Inv ->
+   PROVED for the model of ParseSIPMsg: for every flag combination, every object the run starts from
+   (so every header / contact capacity, fresh or not), every buffer b, start offset k and schedule
+   of growing prefixes, every call of the chunked run - each resuming at the offset and with the
+   object the previous call returned - has the same verdict and offset as one call on the same
+   prefix starting from the initial object, and once the verdict is definitive the same value of
+   everything obs_msg reads back (first line, header list and shortcuts, From/To/Call-ID/CSeq/
+   Content-Length/Expires/Contact/PAI values, body, Buf, RawMsg, Parsed/Err/Request/Method).
+   Route: IterExt for every automaton under the message parser (Ext*.v), composed through the
+   header line, the header block and the three sections of the message (ExtHdrLine, ExtHeaders,
+   ExtMsg: msg_resume is an equality of results, not only of observations), then the parser
+   independent induction over the schedule (Resume.v).
+   The 65,535-byte limit of the Go code is not part of this statement: the model computes offsets
+   in N; C13 and the correspondence run cover the limit. *)
+From Sipsp Require Import Harness Resume ExtMsg.
+
+Theorem C01_every_schedule_from_one_step :
+  forall flags (Inv : N -> pmsg -> Prop), ResOK (parse_sipmsg flags) obs_msg Inv ->
   forall b k s0 cuts, Inv k s0 -> k <= nnat (length b) -> sorted_from (N.to_nat k) cuts ->
     agrees (parse_sipmsg flags) obs_msg b cuts (chunked_trace (parse_sipmsg flags) b cuts k s0) k s0.
-Proof. exact (fun flags Inv => resume_schedule (parse_sipmsg flags) obs_msg Inv). Qed.
+Proof. exact (fun flags Inv => resume_schedule_res (parse_sipmsg flags) obs_msg Inv). Qed.
+
+Theorem C01_message_every_schedule :
+  forall flags b k s0 cuts, k <= nnat (length b) -> sorted_from (N.to_nat k) cuts ->
+    agrees (parse_sipmsg flags) obs_msg b cuts (chunked_trace (parse_sipmsg flags) b cuts k s0) k s0.
+Proof. exact (fun flags b k s0 cuts => resume_schedule_res _ _ _ (msg_ResOK flags) b k s0 cuts I). Qed.
+
+(* the one-step form, as equalities of whole results *)
+Theorem C01_message_resumes_transparently :
+  forall flags p x i s, testbit flags bSIPMsgNoMoreData = false -> i <= nnat (length p) ->
+  match parse_sipmsg flags p i s with
+  | Done o EMore s' => o <= nnat (length p) /\ parse_sipmsg flags (p ++ x) o s' = parse_sipmsg flags (p ++ x) i s
+  | _ => True
+  end.
+Proof. exact msg_resume. Qed.
+
+(* with the no-more-data flag a call never asks for more: every chunked run is a single call *)
+Theorem C01_no_more_data_never_suspends :
+  forall flags p i s o s', testbit flags bSIPMsgNoMoreData = true -> parse_sipmsg flags p i s <> Done o EMore s'.
+Proof. exact msg_nomore. Qed.
